@@ -203,7 +203,7 @@ type c20pred struct {
 }
 
 var c20preds = []c20pred{{"a", 1, false}, {"b", 1, false}, {"c", 2, false}, {"d", 0, false}, {"e", 1, false},
-	{"q q", 1, false}, {"g", 0, true}, {"h", 0, true}}
+	{"q q", 1, false}, {"g", 0, true}, {"h", 0, true}, {"f4", 4, false}, {"f5", 5, false}, {"f6", 6, false}}
 
 type c20gen struct {
 	r  *rand.Rand
@@ -268,6 +268,27 @@ func (g *c20gen) clause(p c20pred) c20item {
 		args[i] = g.arg()
 	}
 	h := mk(p.name, args)
+	if p.arity >= 4 && g.r.Intn(2) == 0 {
+		// wide heads with 2..3 SHORT alternatives (each alternative becomes a clause of its own, with its own
+		// copy of the head code)
+		short := func() *gt_c09 {
+			switch g.r.Intn(4) {
+			case 0:
+				return ga("true")
+			case 1:
+				return ga("d")
+			case 2:
+				return gc("b", g.arg())
+			default:
+				return gc(",", ga("d"), ga("d"))
+			}
+		}
+		body := gc(";", short(), short())
+		if g.r.Intn(2) == 0 {
+			body = gc(";", short(), body)
+		}
+		return c20item{kind: 't', t: grule(h, body)}
+	}
 	switch k := g.r.Intn(10); {
 	case k < 5:
 		return c20item{kind: 't', t: h}
@@ -611,7 +632,7 @@ func c20listing(i *prolog.Interpreter) string {
 		for _, c := range p.Clauses {
 			cs = append(cs, wire(c.Raw, nil, newVarNamer()))
 		}
-		rows = append(rows, fmt.Sprintf("%s/%d:%s[%s]", encName(p.Name), p.Arity, fl, strings.Join(cs, ", ")))
+		rows = append(rows, fmt.Sprintf("%s/%d:%s[%s]%s", encName(p.Name), p.Arity, fl, strings.Join(cs, ", "), c20codeCheck(p)))
 	}
 	sort.Strings(rows)
 	return "{" + strings.Join(rows, ", ") + "}"
@@ -710,4 +731,97 @@ func runC20(payload string) string {
 	}
 	last := strings.SplitN(out[len(out)-1], " ", 2)[0]
 	return strings.Join(out, " // ") + fmt.Sprintf(" ### nt=%d kind=%s outcome=%s prior_loads=%d", nt, tg["kind"], last, len(parts)-1)
+}
+
+// ---------------------------------------------------------------------------------------------
+// The stored TERM of a clause is what the listing compares with the model; its CODE is what runs. A rule whose
+// body is a top-level disjunction is stored as one compiled clause per alternative, all carrying the whole
+// rule as their term: the code of the j-th of them must be the code the engine produces for `Head :- Alt_j`
+// alone (compiled here through assertz/1 on a scratch interpreter, cached by clause text).
+
+var c20code struct {
+	mu    sync.Mutex
+	i     *prolog.Interpreter
+	cache map[string]string
+}
+
+func c20codeText(code []engine.VerifInstr) string {
+	var sb strings.Builder
+	n := newVarNamer()
+	for _, in := range code {
+		sb.WriteString(in.Op)
+		if in.Operand != nil {
+			sb.WriteString("(" + wire(in.Operand, nil, n) + ")")
+		}
+		sb.WriteByte(' ')
+	}
+	return sb.String()
+}
+
+// c20alternatives mirrors the engine's split of a body into clauses: (A ; B) splits unless A is (C -> T).
+func c20alternatives(b engine.Term) []engine.Term {
+	var out []engine.Term
+	for {
+		c, ok := b.(engine.Compound)
+		if !ok || c.Functor().String() != ";" || c.Arity() != 2 {
+			break
+		}
+		if l, ok := c.Arg(0).(engine.Compound); ok && l.Functor().String() == "->" && l.Arity() == 2 {
+			break
+		}
+		out = append(out, c.Arg(0))
+		b = c.Arg(1)
+	}
+	return append(out, b)
+}
+
+func c20expectedCode(name string, arity int, clause engine.Term) string {
+	key := wire(clause, nil, newVarNamer())
+	c20code.mu.Lock()
+	defer c20code.mu.Unlock()
+	if c20code.cache == nil {
+		c20code.cache = map[string]string{}
+		c20code.i, _ = newInterp("")
+	}
+	if r, ok := c20code.cache[key]; ok {
+		return r
+	}
+	r := "?"
+	vm := &c20code.i.VM
+	if solveOnce(vm, compound("assertz", clause)) == "true" {
+		for _, p := range vm.VerifProcedures() {
+			if p.Name == name && p.Arity == arity && len(p.Clauses) == 1 {
+				r = c20codeText(p.Clauses[0].Code)
+			}
+		}
+		_ = solveOnce(vm, compound("abolish", compound("/", atom(name), engine.Integer(arity))))
+	}
+	c20code.cache[key] = r
+	return r
+}
+
+func c20codeCheck(p engine.VerifProc) string {
+	bad := ""
+	for k := 0; k < len(p.Clauses); {
+		raw := p.Clauses[k].Raw
+		alts := []engine.Term{nil}
+		var head engine.Term = raw
+		if c, ok := raw.(engine.Compound); ok && c.Functor().String() == ":-" && c.Arity() == 2 {
+			head, alts = c.Arg(0), c20alternatives(c.Arg(1))
+		}
+		for j, a := range alts {
+			if k+j >= len(p.Clauses) {
+				return bad + fmt.Sprintf("!CODE(%d:missing)", k+j)
+			}
+			cl := head
+			if a != nil {
+				cl = compound(":-", head, a)
+			}
+			if want := c20expectedCode(p.Name, p.Arity, cl); want != "?" && want != c20codeText(p.Clauses[k+j].Code) {
+				bad += fmt.Sprintf("!CODE(%d)", k+j)
+			}
+		}
+		k += len(alts)
+	}
+	return bad
 }
